@@ -53,3 +53,27 @@ func VerifNewWiring() {
 	vAssert("serial-writer-wired", len(w1.log) == 1 && w1.log[0] == 0x41 && len(w2.log) == 0)
 	vReach("end")
 }
+
+// a first emulator that has run, used its battery-backed cartridge RAM and been cleaned up must leave nothing behind
+// that a second emulator built from the same configuration picks up (C24: repeated runs in one process agree;
+// C25: instances do not share buffers)
+func VerifNewAfterCleanup() {
+	img := verifNopImage()
+	img[0x147] = uint8(vCfg("type"))
+	img[0x148] = 0
+	img[0x149] = 2
+	path := vTempRom(img)
+	cfg := Config{RomFilename: path, DisableVideoOutput: true, DisableAudioOutput: true}
+	g1 := New(cfg)
+	g1.mapper.Write(0x0000, 0x0a)
+	ra := 0xa000 + vU16("ra")%0x2000
+	fresh := g1.mapper.Read(ra)
+	g1.mapper.Write(ra, vU8("rv"))
+	f1 := g1.ppu.Frame()
+	g1.Cleanup()
+	g2 := New(cfg)
+	g2.mapper.Write(0x0000, 0x0a)
+	vAssert("second-run-starts-with-fresh-cartridge-ram", g2.mapper.Read(ra) == fresh)
+	vAssert("frame-buffers-distinct", g2.ppu.Frame() != f1)
+	vReach("end")
+}
